@@ -54,6 +54,11 @@ CLAIMED["C09"] = dict(
    note="Trusted: go/ssa, error-cell abstraction. try catching control signals is recorded under C08.R2 (known finding).",
    technique="must-pass-through / dominance rules on SSA + abstract error-cell refinement for the precedence rule",
    design="4 C09")
+CLAIMED["C01"] = dict(
+   text="Containment of Go panics decided as a coverage property of the call graph, for all programs: from every exported entry point of vm no evaluator is reachable through calls that are not made under a deferred recover handler which only the Debug option can disable (the unprotected call chain is reported); host calls made outside every recover (deferred calls) are themselves protected; every go statement starts a body that runs under its own recover; no process-exit call exists in the interpreter packages; the recover handler is total; reflect operations executed outside every recover are guarded. With the boundary recover in place individual kind/bounds guards are not needed for this property (a missing one turns a clean message into a recovered-panic error) and are deliberately not armed. The parse path, which has no recover, is covered by the may-panic enumeration shared with C15.R3. Unrecoverable runtime faults (stack, memory, concurrent map writes, deadlock) are outside the statement.",
+   note="Trusted: go/ssa static call graph of package vm (script functions are reached only through the closures built in funcExpr, which install their own boundary), reflect panics being ordinary panics.",
+   technique="call-graph reachability under 'active deferred recover' + dominance rules on SSA (who-may-call, must-pass-through)",
+   design="4 C01")
 NOT_YET = "checker for this property is not built yet in this revision (see DESIGN.md section 4 for the planned static rules)"
 ALL = ["C%02d" % i for i in range(1, 21)]
 
